@@ -32,6 +32,7 @@ import (
 	"github.com/fxamacker/cbor/v2"
 	"github.com/taurusgroup/multi-party-sig/pkg/math/curve"
 	"github.com/taurusgroup/multi-party-sig/pkg/party"
+	"github.com/taurusgroup/multi-party-sig/pkg/protocol"
 	"github.com/taurusgroup/multi-party-sig/pkg/taproot"
 	"github.com/taurusgroup/multi-party-sig/protocols/frost"
 	"github.com/zeebo/blake3"
@@ -121,6 +122,9 @@ type c11Replay struct {
 	KeyB string `json:"key_b_hex,omitempty"`
 	MsgA string `json:"msg_a_hex,omitempty"`
 	MsgB string `json:"msg_b_hex,omitempty"`
+	// frost-startfunc: ONE protocol.StartFunc value per reusing signer starts `Sessions` sessions of context_a (c11_startfunc.go)
+	Sessions int      `json:"sessions,omitempty"`
+	Reusers  []string `json:"reusing_signers,omitempty"`
 	// what was seen
 	Observed string `json:"observed,omitempty"`
 	Expected string `json:"expected,omitempty"`
@@ -140,6 +144,8 @@ type c11State struct {
 	hasRef       bool
 	logged       map[string]int
 	refusedNoted bool
+	// startOverride: start functions created by the caller (c11_startfunc.go); signers without an entry get a fresh one
+	startOverride map[string]protocol.StartFunc
 }
 
 // call: model call; only the first few calls of the nonce/session ops are logged for the vm_compute cross-check
@@ -298,6 +304,15 @@ func (st *c11State) runFrost(x c11Ctx, det *detReader) (*c11Session, error) {
 		sp = specFrostSignTaproot(mat.tap, signers, x.msg(), x.sid())
 	} else {
 		sp = specFrostSign(mat.plain, signers, x.msg(), x.sid())
+	}
+	if st.startOverride != nil {
+		fresh, over := sp.Start, st.startOverride
+		sp.Start = func(id party.ID) protocol.StartFunc {
+			if f, ok := over[string(id)]; ok {
+				return f
+			}
+			return fresh(id)
+		}
 	}
 	rec := &c11RecReader{det: det}
 	crand.Reader = rec
@@ -734,6 +749,8 @@ func runC11(c *ctx) {
 						st.frostPair(a, v.B, v.Name, mode, c.res.Seed*1000003+pairNo)
 					}
 				}
+				// one StartFunc VALUE starting several sessions of the same context (a retry)
+				pairNo = st.startFuncSuite(a, r, pairNo)
 			}
 		}
 	}
@@ -1052,6 +1069,15 @@ func (st *c11State) replay() {
 			mode = 1
 		}
 		st.frostPair(*rp.A, *b, v, mode, rp.RngSeed)
+	case "frost-startfunc":
+		if rp.A == nil {
+			st.c.res.Note("replay: no context")
+			return
+		}
+		if mode < 0 || mode > 2 {
+			mode = 0
+		}
+		st.startFuncReuse(*rp.A, rp.Variant, rp.Reusers, rp.Sessions, mode, rp.RngSeed)
 	case "bip340":
 		ka, _ := hex.DecodeString(rp.KeyA)
 		kb, _ := hex.DecodeString(rp.KeyB)
